@@ -101,12 +101,13 @@ void vh_run(const vh::Case& c, vh::Ctx& ctx) {
   if (f.is_apx()) { ctx.cls("skip_apx"); return; }
   xi::XInst x = xi::instantiate(f, mode, ch);
   if (!x.valid) { ctx.cls("skip_uninstantiable"); return; }
+  bool unsized = false;
   if (c.cfg.size() > 2 && (c.cfg[2] & 1)) {
     // unsized memory operands: the assembler has to infer the size (or refuse an ambiguous one); the judges accept every DB form of the
     // mnemonic that admits the operands as given
     bool any = false;
     for (xi::Opnd& o : x.ops) if (o.kind == xi::Opnd::kMem && o.mem.size_bits != 0) { o.mem.size_bits = 0; any = true; }
-    if (any) ctx.cls("unsized_memory_operand");
+    if (any) { ctx.cls("unsized_memory_operand"); unsized = true; }
   }
 
   InstId id = InstAPI::string_to_inst_id(mode == 64 ? Arch::kX64 : Arch::kX86, f.name.c_str(), f.name.size());
@@ -124,7 +125,10 @@ void vh_run(const vh::Case& c, vh::Ctx& ctx) {
   const uint8_t* A = buf.data();
   size_t An = buf.size();
   std::string desc = std::string(mode == 64 ? "x64 " : "x86 ") + text + " => " + hex(A, An);
-  if (!(An > 0 && An <= 15)) { if (!ctx.fail_unless_known("length-out-of-range:" + f.name, desc + ": " + std::to_string(An) + " bytes appended (architectural limit is 15)")) {} }
+  if (!(An > 0 && An <= 15)) {
+    ctx.fail_unless_known("length-out-of-range:" + f.name, desc + ": " + std::to_string(An) + " bytes appended (architectural limit is 15)");
+    return;      // no decoder can be asked about a 16-byte instruction
+  }
   VH_CHECK(ctx, a.offset() == An, "offset-mismatch", "%s: offset() %zu != buffer size %zu", desc.c_str(), a.offset(), An);
   VH_CHECK(ctx, code.reloc_entries().size() == 0 && code.label_count() == 0, "unexpected-reloc", "%s: %zu relocations created for a label-free instruction", desc.c_str(), code.reloc_entries().size());
 
@@ -205,7 +209,10 @@ void vh_run(const vh::Case& c, vh::Ctx& ctx) {
     // Text disagreement counts only when LLVM's own bytes are an encoding of the same DB form (so the text difference is
     // not LLVM choosing another instruction for our rendering) and BOTH decoders see a difference (or one cannot decode).
     bool both_text_bad = (j1_text_bad && (j2_text_bad || !oA.count)) || (j2_text_bad && (j1_text_bad || !dA.count));
-    if (both_text_bad && l_matches_template && tv.status == xt::kMatch && !equiv)
+    // With an unsized memory operand the rendered text is ambiguous (lcall fs:[esp]: m16:32 or m16:64): LLVM's own choice for it is
+    // not a reference; the template judge (which accepts every form that admits the operands) and the length checks still apply.
+    if (both_text_bad && unsized) ctx.cls("unsized_text_ambiguous_not_compared");
+    else if (both_text_bad && l_matches_template && tv.status == xt::kMatch && !equiv)
       ctx.fail_unless_known("decoders-text:" + f.name, desc + " :: " + (j1_text_bad ? j1_detail : j2_detail));
     if ((j1_text_bad || j2_text_bad) && tv.status == xt::kMatch && !l_matches_template) ctx.cls("llvm_chose_another_form_for_our_text");
     if ((j1_text_bad || j2_text_bad) && tv.status == xt::kUndecided) ctx.cls("unarbitrated_decoder_disagreement");
